@@ -108,13 +108,28 @@ def snap_market(m, U):
         ord_s = [heapq.heappop(qs).order_id for _ in range(len(qs))]
     except Exception:  # noqa: BLE001 - comparing two resting orders raised: reported as a wrong queue order (C02)
         ord_b, ord_s = [-2], [-2]
-    vw = m.get_vwap()
-    num, den = sum(m.get_executed_total_prices()), sum(m.get_executed_volumes())
-    vw_ok = (math.isnan(vw) if den == 0 else vw == num / den)
-    tot = U.total(m.get_executed_total_price(), int(m.get_executed_volume()), soft=True)
+    def soft(fn, bad):
+        # the per-step statistics are read softly: a getter that raises (e.g. a series left too short by a clock jump) is a wrong
+        # statistic (C08), and the history goes on so that what follows from it (a round that raises: C03) is judged as well
+        try:
+            return fn()
+        except MachineryError:
+            raise
+        except Exception:  # noqa: BLE001
+            return bad
+    try:
+        vw = m.get_vwap()
+        num, den = sum(m.get_executed_total_prices()), sum(m.get_executed_volumes())
+        vw_ok = (math.isnan(vw) if den == 0 else vw == num / den)
+    except MachineryError:
+        raise
+    except Exception:  # noqa: BLE001
+        vw_ok = False
+    ev_ = soft(lambda: int(m.get_executed_volume()), -7)
+    tot = soft(lambda: U.total(m.get_executed_total_price(), int(m.get_executed_volume()), soft=True), None)
     row = [u(m.get_market_price()), u(m.get_last_executed_price()), u(m.get_mid_price()),
-           int(m.get_executed_volume()), BADPX if tot is None else tot,
-           int(m.get_n_buy_order()), int(m.get_n_sell_order())]
+           ev_, BADPX if tot is None else tot,
+           soft(lambda: int(m.get_n_buy_order()), -7), soft(lambda: int(m.get_n_sell_order()), -7)]
     return {
         "book": book,
         "bB": -1 if bb is None else bb.order_id, "bS": -1 if bs is None else bs.order_id,
@@ -126,13 +141,29 @@ def snap_market(m, U):
     }
 
 
+def _cell(fn, *a):
+    """repr of what a getter of the code under test answers; a refusal (times skipped by Market._set_time hold no value for some
+    series) is an answer as well and has to stay the same refusal"""
+    try:
+        return repr(fn(*a))
+    except MachineryError:
+        raise
+    except Exception as ex:  # noqa: BLE001
+        return "!" + type(ex).__name__
+
+
 def history_rows(m, intern):
     """Interned rows of all eight series for every PAST time (C06: what was seen once must be seen forever)."""
     t = m.get_time()
-    cols = [getattr(m, g)(range(t)) for g in SERIES_FOR_HISTORY]
+    try:
+        cols = [[repr(x) for x in getattr(m, g)(range(t))] for g in SERIES_FOR_HISTORY]
+    except MachineryError:
+        raise
+    except Exception:  # noqa: BLE001 - some time in the range is refused: ask time by time
+        cols = [[_cell(lambda i=i, g=g: getattr(m, g)([i])[0]) for i in range(t)] for g in SERIES_FOR_HISTORY]
     out = []
     for i in range(t):
-        row = tuple(repr(c[i]) for c in cols) + index_columns(m, i) + tuple(repr(getattr(m, g)(i)) for g in DERIVED_ACCESSORS)
+        row = tuple(c[i] for c in cols) + index_columns(m, i) + tuple(_cell(getattr(m, g), i) for g in DERIVED_ACCESSORS)
         out.append(intern.setdefault(row, len(intern) + 1))
     return out
 
@@ -145,7 +176,7 @@ def index_columns(m, i):
     """an index market also answers for past times through its index accessors (computed from its components)"""
     if not all(hasattr(m, g) for g in INDEX_ACCESSORS):
         return ()
-    return tuple(repr(getattr(m, g)(i)) for g in INDEX_ACCESSORS)
+    return tuple(_cell(getattr(m, g), i) for g in INDEX_ACCESSORS)
 
 
 def current_row(m, intern):
@@ -153,7 +184,7 @@ def current_row(m, intern):
     t = m.get_time()
     if t < 0:
         return 0
-    row = tuple(repr(getattr(m, g)([t])[0]) for g in SERIES_FOR_HISTORY) + index_columns(m, t) + tuple(repr(getattr(m, g)(t)) for g in DERIVED_ACCESSORS)
+    row = tuple(repr(getattr(m, g)([t])[0]) for g in SERIES_FOR_HISTORY) + index_columns(m, t) + tuple(_cell(getattr(m, g), t) for g in DERIVED_ACCESSORS)
     return intern.setdefault(row, len(intern) + 1)
 
 
@@ -343,11 +374,26 @@ class BookSession:
         self.ops.append(["jump", int(k), int(fund)])
         to = self.m.get_time() + int(k)
         try:
+            pre = current_row(self.m, self._intern)
+        except MachineryError:
+            raise
+        except Exception:  # noqa: BLE001
+            pre = 0
+        t_old = self.m.get_time()
+        try:
             self.m._set_time(time=to, next_fundamental_price=self.U.f(fund))
         except Exception as ex:  # noqa: BLE001
             self._crash("tick", ex)
-        self.nohist = True
-        return self._emit({"k": "jump", "to": int(to), "fund": int(fund)})
+        e = self._emit({"k": "jump", "to": int(to), "fund": int(fund), "pre": pre, "told": int(t_old)})
+        try:
+            # what the finished steps said stays; the skipped times hold whatever they hold from now on
+            e["hist"] = self._history()
+        except MachineryError:
+            raise
+        except Exception as ex:  # noqa: BLE001
+            self.ev.pop()
+            self._crash("history-getters", ex)
+        return e
 
     def _history(self):
         return history_rows(self.m, self._intern)
